@@ -137,3 +137,47 @@ mutant('c20-inverted-if-ungrouped','C20','ifExpression',F,o,n)
 o,n = infunc(F,'func (self *Transformer) ifExpression','	if node.ElseBlock != nil {\n		b := self.Block(*node.ElseBlock)','	if node.ElseBlock != nil && len(node.ElseBlock.Statements) > 0 {\n		b := self.Block(*node.ElseBlock)')
 mutant('c20-plain-if-loses-else','C20','ifExpression',F,o,n)
 print("done 2")
+# --- round 3 additions
+M='homescript/analyzer/module.go'
+o,n = infunc(M,'func (self Module) getVar','	for idx := len(self.Scopes) - 1; idx >= 0; idx-- {\n		val, found := self.Scopes[idx].Values[ident]','	for idx := 0; idx < len(self.Scopes); idx++ {\n		val, found := self.Scopes[idx].Values[ident]')
+mutant('c03-variable-lookup-outermost-first','C03','getVar',M,o,n)
+o,n = infunc(M,'func (self Module) getType','	for idx := len(self.Scopes) - 1; idx >= 0; idx-- {\n		val, found := self.Scopes[idx].Types[ident]','	for idx := len(self.Scopes) - 1; idx > 0; idx-- {\n		val, found := self.Scopes[idx].Types[ident]')
+mutant('c03-type-lookup-skips-the-root-scope','C03','getType',M,o,n)
+o,n = infunc(E,'func (self *Analyzer) ifExpression','			} else if elseBlockTemp.ResultType.Kind() == ast.NeverTypeKind {\n				resultType = thenBlock.ResultType.SetSpan(node.Range)\n			}','			}')
+mutant('c03-if-with-diverging-else-is-never','C03','ifExpression',E,o,n)
+TY='homescript/analyzer/typing.go'
+o,n = infunc(TY,'func (self *Analyzer) TypeCheck','''		err, proceed := self.checkTypeKindEquality(got, expected)
+		if err != nil || !proceed {
+			return err
+		}
+		expectedObj := expected.(ast.ObjectType)''','''		expectedObj := expected.(ast.ObjectType)
+		err, proceed := self.checkTypeKindEquality(got, expected)
+		if err != nil || !proceed {
+			return err
+		}''')
+mutant('c05-typecheck-asserts-before-the-kind-check','C05','TypeCheck',TY,o,n)
+o,n = infunc(S,'func (self *Analyzer) letStatement','		NeedsRuntimeTypeValidation: rhsHasAny,','		NeedsRuntimeTypeValidation: rhsHasAny && node.OptType != nil && rhsType.Kind() == ast.AnyTypeKind,')
+mutant('c12-let-validates-only-a-bare-any','C12','letStatement',S,o,n)
+CS='homescript/compiler/statement.go'
+o,n = infunc(CS,'func (self *Compiler) compileLetStmt','		self.insert(newCastInstruction(node.OptType, false), node.Type().Span())','		self.insert(newCastInstruction(node.OptType, true), node.Type().Span())')
+mutant('c12-annotated-let-converts','C12','compileLetStmt',CS,o,n)
+o,n = infunc(CS,'func (self *Compiler) compileLetStmt','	if node.NeedsRuntimeTypeValidation {','	if node.NeedsRuntimeTypeValidation && !isGlobal {')
+mutant('c12-global-let-is-not-validated','C12','compileLetStmt',CS,o,n)
+CE='homescript/compiler/expression.go'
+mutant('c12-cast-expression-lowered-with-the-value-type','C12','compileExprInner',CE,'		self.insert(newCastInstruction(node.AsType, true), node.Range)','		self.insert(newCastInstruction(node.Base.Type(), true), node.Range)')
+X='homescript/runtime/execute.go'
+mutant('c12-failed-cast-is-fatal','C12','runInstruction',X,'''			return value.NewVMThrowInterrupt(
+				castError.Span,
+				castError.Message(),
+			)
+		}
+		self.push(casted)''','''			return value.NewVMFatalException(
+				castError.Message(),
+				value.Vm_CastErrorKind,
+				castError.Span,
+			)
+		}
+		self.push(casted)''')
+V='homescript/runtime/vm.go'
+mutant('c12-host-arguments-may-convert','C12','SpawnSync',V,'		_, interrupt := value.DeepCast(arg, param.Type, errors.Span{}, false)','		_, interrupt := value.DeepCast(arg, param.Type, errors.Span{}, true)',2)
+print("done 3")
